@@ -15,7 +15,7 @@ LEVEL = {
  "C07": ("proof", "Proved: on every valid UTF-8 record the fields character mode indexes are exactly its scalar encodings, whole and in order. Assumed and exercised, not proved: the regex crate's \\b|\\B matches at exactly the scalar boundaries."),
  "C08": ("proof", "Theorems (Coq, axiom-free): every element the JSON writer emits is read back by a strict reader as exactly the part's text (all escapes, control bytes by kernel enumeration); the line printed for a record is read back by a strict one-pass array reader as exactly the list of parts (C08_array_roundtrip); with the settings --json installs, for every parsed bounds list without format text (also complemented) and every record, the general path prints nothing (-s), a bare EOL (record empty, possibly after -t) or exactly one array whose elements are, bound by bound, one string per part of a range and one for a fallback (C08_one_element_per_part, C08_record_is_one_array). UTF-8 validity is a premise inside the model (invalid text fails the record). Tied to the code by correspondence on every case and by Python's strict json.loads on every output line."),
  "C09": ("proof", "Theorems: rewriting any subset of in-range negative indexes to n+1-k leaves try_into_range, range expansion, complement, the whole of byte mode and the output loops of the general path and of the fast lane unchanged. Path switches caused by the rewriting are covered by C02/C05 and by the pair oracle on the implementation."),
- "C10": ("proof", "Theorems C10_general_path / C10_fast_path: the run over (A + EOL) + B is the run over A + EOL followed by the run over B, including what a failure delivers. The model cuts each record by a function of that record alone; that the code's reused buffers do not leak between records is checked by the correspondence run and the (A, B, A||B) oracle, -M included."),
+ "C10": ("proof", "Theorems (Coq, axiom-free): on the general path (also -c, --json, -e), the fast lane and -M, the run over (A ++ EOL) ++ B equals the run over A ++ EOL followed by the run over B, status and failure prefix included; for -M this is derived from C10_fixed_memory_is_per_record (the fixed-memory reader is one per-record function mapped over the records; pending bound, field counter, truncation flag and early-stop state are reset) and holds under every chunking of the three inputs (with C04). That the code's reused scratch buffers do not leak between records is what the correspondence check and the triple oracle (A, B, A||B on the implementation, -M also under segmentations) test."),
  "C11": ("proof", "Proved: record splitting, field locations (plain and greedy), trimming and -p commute with every injective renaming of bytes, in particular with exchanging LF and NUL; CR is like any other byte. The whole-run statement is checked by the pair oracle (ARGS on I) vs (-z ARGS on swap(I)) on the implementation for every record/line mode."),
  "C12": ("proof", "Proved: the literal splitters yield well-formed matches for every delimiter (the empty one included), the index sites of the general path and of the fast lane cannot go out of range, range expansion is bounded by the number of parts. Every loop of the model is structural or fuelled by the input length. The run checks exit status 0/1 on bounded-exhaustive and adversarial argv x stdin, debug and release builds."),
  "C13": ("proof", "Theorems, one per path (general incl. --json/-c after range expansion, fast, -b, -l one line at a time, -M): an unresolvable bound yields its own fallback, else the generic one, else failure; a resolvable bound never consults a fallback; range expansion keeps an unresolvable bound intact."),
